@@ -10,7 +10,10 @@ ENTRY = dict(
          "the uTLS server (it has the hooks): histories of 8 (thorough 24) key updates alternating peer/client, random "
          "update_requested, data both ways after each; and against crypto/tls (a peer with its OWN key schedule): 5 (thorough 12) "
          "client KeyUpdates, mostly update_requested so that the server ratchets its sending secret itself, data both ways under "
-         "every generation; zero-length application data records interleaved with data in three shapes (random runs up to 24, > 40 "
+         "every generation; post-handshake messages while the LOCAL send side is broken (4 ways: expired write deadline, transport "
+         "write error, transport write blocking then timing out, half-closed socket): the uTLS-server peer sends "
+         "KeyUpdate(update_requested), data, an extra NewSessionTicket, data, KeyUpdate(requested), data, KeyUpdate, data - the "
+         "client must read exactly those bytes or end with the transport error, never a locally raised TLS alert; zero-length application data records interleaved with data in three shapes (random runs up to 24, > 40 "
          "in total; one empty record before EACH of ~55 data records; pairs), read by UConn.Read. Tampering on live sessions: bit flip in body / first header / dropped byte (3 per pair, thorough 12), TLS "
          "1.3 record truncated to 0,1,15..18,40 bytes (thorough 0..63). Record level on forged connections (fresh receiver per "
          "experiment, UConn.Read, panic = failure) for EVERY suite of the table incl. the weak CBC suites x versions 1.0-1.2: the first "
@@ -21,7 +24,7 @@ ENTRY = dict(
          "reader goroutine verifies the peer's chunks (and answers its KeyUpdate requests inside Read), and a third goroutine sends "
          "n = 150 (thorough 1500) KeyUpdate(update_requested) with random pauses; oracle: every chunk arrives intact and in its "
          "writer's order, no call fails, no data race reported.",
-    trusted_base=["hooks/verif_c27.go (suite table, record state), hooks/verif_c25.go (VerifSendKeyUpdate), hooks/verif_c28.go (VerifWriteEmptyRecord): test equipment",
+    trusted_base=["hooks/verif_c27.go (suite table, record state), hooks/verif_c25.go (VerifSendKeyUpdate), hooks/verif_c28.go (VerifWriteEmptyRecord), hooks/verif_c25b.go (VerifWriteRecord): test equipment",
                   "the uTLS server (same record layer) as the peer for key-update and empty-record histories",
                   "crypto/tls server of the Go toolchain as the compliant peer",
                   "AEAD / CBC / RC4 / HMAC laws as premises (prims_ok); ideal-AEAD premise for the tamper theorem (labelled)"],
